@@ -123,6 +123,9 @@ class Finders:
     if record_type is None:
       return self.lines
     else:
+      if record_type == "H":
+        # the header is a single (multi-line) line, not a collection
+        return self.headers
       d = self._records[record_type]
       if record_type == "F":
         retval = []
